@@ -1,15 +1,15 @@
 SPECIFICATION Spec
 CONSTANTS
-  Chains <- QChains
+  Chains <- TBChains
   NX = 4
   CondTab <- MCCondTab
   CondDen <- MCCondDen
   BaseTab <- MCBaseTab
-  MaxN = 2
-  IncDom = {0, 1}
-  MaxLen = 3
-  IterArgs = {0, 2}
-  StoreArgs = {1}
+  MaxN = 3
+  IncDom = {0, 1, 2}
+  MaxLen = 4
+  IterArgs = {0, 3}
+  StoreArgs = {0, 2}
 VIEW View
 INVARIANT TypeOK
 INVARIANT OnlyLagrangeStores
@@ -20,6 +20,7 @@ INVARIANT LagIneqFeasibleNotPenalised
 INVARIANT StackedAdd
 INVARIANT ZeroDivisionInfinite
 INVARIANT ErrorIsViolation
+INVARIANT Representable
 PROPERTY ClearResets
 PROPERTY IterAdvances
 PROPERTY StoreFootprint
